@@ -1016,6 +1016,32 @@ def undo_corollary():
     return info
 
 
+def bump_corollary():
+    """coq/TrBufsLbuf.v discharges the hypothesis `bump_call` of C20_tr_bufs_switch (the lbuf_modified(bufs[0].lb) of bufs_switch,
+    repo commit 75e4c2f) with the theorem about the translated lbuf_modified of coq/TrLbuf.v (another group's file: C02).  It is
+    compiled and its assumptions are printed here; recorded in the evidence, not an obligation of Properties_C20.v (a change of
+    lbuf.c must not raise a C20 alarm)."""
+    info = {'file': 'coq/TrBufsLbuf.v', 'theorem': 'tr_bufs_switch_bump', 'compiled': False, 'print_assumptions': None, 'forbidden_tokens': None}
+    try:
+        ok, log = vlib.coq_make(['TrBufsLbuf.vo'])
+        info['compiled'] = bool(ok)
+        if not ok:
+            info['log'] = log[-800:]
+            return info
+        src = vlib.strip_comments(open(os.path.join(vlib.COQ, 'TrBufsLbuf.v')).read())
+        info['forbidden_tokens'] = [m.group(0) for m in vlib.FORBIDDEN.finditer(src)]
+        d = os.path.join(vlib.tmpdir(), 'assum_C20_bump')
+        os.makedirs(d, exist_ok=True)
+        fn = os.path.join(d, 'AssumBump.v')
+        with open(fn, 'w') as f:
+            f.write('From NV Require Import TrBufsLbuf.\nPrint Assumptions tr_bufs_switch_bump.\n')
+        r = vlib.sh(['coqc', '-Q', vlib.COQ, 'NV', fn], cwd=d, timeout=600)
+        info['print_assumptions'] = [l for l in r.stdout.split('\n') if l.strip()][-6:]
+    except Exception as e:
+        info['error'] = str(e)
+    return info
+
+
 def run(ctx):
     res = ctx.res
     rng = ctx.rng
@@ -1168,3 +1194,4 @@ def run(ctx):
     res.extra['model_compared'] = mans is not None
     if not ctx.replay:
         res.extra['undo_stack_corollary'] = undo_corollary()
+        res.extra['bump_corollary'] = bump_corollary()
